@@ -772,3 +772,87 @@ Proof.
   apply mus_deletion_relax_eq; [apply sat_ref_ok|].
   intros s H. unfold subset_ref in H. destruct (sat_ref n f); inversion H; subst. exact Hin.
 Qed.
+
+(* ================================================================== *)
+(* 6. The non-minimality of MUSMaxSat does not depend on which optimum  *)
+(*    the MaxSAT oracle returns                                         *)
+
+Lemma len2_cases : forall m : list bool, length m = 2%nat ->
+  m = [true; true] \/ m = [true; false] \/ m = [false; true] \/ m = [false; false].
+Proof.
+  intros [|a [|b [|c r]]] H; try discriminate. destruct a, b; auto.
+Qed.
+
+Lemma maxsat_loop_step : forall n mr f st mus,
+  maxsat_loop n mr (S f) st mus =
+  match mr n (hard_of st) (soft_of st) with
+  | None => MusOk mus
+  | Some m =>
+    if forallb (sat_clause m) (soft_of st) then MusErr
+    else let (st', add) := mark_violated m st in maxsat_loop n mr f st' (mus ++ add)
+  end.
+Proof. reflexivity. Qed.
+
+Definition not_mus_res (n : nat) (f : cnf) (r : mus_res) : Prop :=
+  match r with MusOk s => is_musb n f s = false | _ => False end.
+
+Ltac maxsat_step mr Hok :=
+  rewrite maxsat_loop_step;
+  match goal with
+  | |- context [mr 2%nat ?h ?s] =>
+    let h' := eval vm_compute in h in
+    let s' := eval vm_compute in s in
+    change h with h'; change s with s';
+    let H := fresh "H" in let HL := fresh "HL" in let HH := fresh "HH" in
+    let m := fresh "m" in
+    pose proof (Hok h' s') as H;
+    destruct (mr 2%nat h' s') as [m|];
+    [ destruct H as [HL [HH _]];
+      destruct (len2_cases m HL) as [->|[->|[->| ->]]];
+      vm_compute in HH; try discriminate HH; clear HL HH;
+      match goal with
+      | |- context [forallb ?f ?l] =>
+        let b := eval vm_compute in (forallb f l) in change (forallb f l) with b
+      end;
+      cbv iota;
+      match goal with
+      | |- context [mark_violated ?m0 ?st] =>
+        let r := eval vm_compute in (mark_violated m0 st) in change (mark_violated m0 st) with r
+      end;
+      cbv iota beta; cbn [app]
+    | try (exfalso; apply H;
+           first [ exists [true; true]; split; reflexivity
+                 | exists [true; false]; split; reflexivity
+                 | exists [false; true]; split; reflexivity
+                 | exists [false; false]; split; reflexivity ]) ]
+  end.
+
+Lemma mus_maxsat_any_oracle_aux : forall minrelax,
+  (forall hard soft,
+    match minrelax 2%nat hard soft with
+    | Some m => length m = 2%nat /\ sat_cnf m hard = true /\
+                forall m', length m' = 2%nat -> sat_cnf m' hard = true -> viol m soft <= viol m' soft
+    | None => ~ Satisfiable 2 hard
+    end) ->
+  not_mus_res 2 F_two_cores (mus_maxsat 2 minrelax F_two_cores).
+Proof.
+  intros mr Hok. unfold mus_maxsat, F_two_cores. cbn [length map].
+  maxsat_step mr Hok; maxsat_step mr Hok; maxsat_step mr Hok.
+  all: vm_compute; reflexivity.
+Qed.
+
+Theorem mus_maxsat_refuted_any_oracle : forall minrelax,
+  (forall hard soft,
+    match minrelax 2%nat hard soft with
+    | Some m => length m = 2%nat /\ sat_cnf m hard = true /\
+                forall m', length m' = 2%nat -> sat_cnf m' hard = true -> viol m soft <= viol m' soft
+    | None => ~ Satisfiable 2 hard
+    end) ->
+  ~ Satisfiable 2 F_two_cores /\
+  exists s, mus_maxsat 2 minrelax F_two_cores = MusOk s /\ ~ is_mus 2 F_two_cores s.
+Proof.
+  intros mr Hok. split; [apply unsat_by_dec; vm_compute; reflexivity|].
+  pose proof (mus_maxsat_any_oracle_aux mr Hok) as H.
+  destruct (mus_maxsat 2 mr F_two_cores) as [s| | |]; simpl in H; try contradiction.
+  exists s. split; [reflexivity|]. intros Hm. apply is_musb_spec in Hm. congruence.
+Qed.
